@@ -305,11 +305,11 @@ macro_rules! matrix {
 }
 
 /// Layout matrix for C10: (size, align) = (0,1) (0,4) (2,1) (3,1) (4,1) (4,2) (4,4) (8,4) (8,8)
-/// (12,4) (16,16) (24,8), with two distinct types for several layouts.
+/// (12,4) (16,16) (24,8) (32,32) (32,1) (33,1) (256,256) (257,1), with two distinct types for several layouts.
 fn matrix_pairs() -> Vec<Pair> {
     matrix!(
         OwnZ, OwnZ2, OwnZ4, Own2a1, Own2a1b, Own3, Own4a1, Own4a2, Own2, Pod4, Own8, Own4, OwnBox,
-        Own12, Own16a, Own16b, Own24
+        Own12, Own16a, Own16b, Own24, Own32a, Own32u, Own33, Own256a, Own257
     )
 }
 
@@ -350,6 +350,36 @@ fn enumerate_conv(pairs: &[Pair], max_n: usize, want_fail: Option<bool>) -> Vec<
                                 });
                             }
                         }
+                    }
+                }
+            }
+        }
+    }
+    cases
+}
+
+/// Long vectors (beyond the exhaustive lengths): a few lengths around multiples of eight, a
+/// handful of converted/abandoned patterns (all converted, one kept in eight, only the last / the
+/// first kept, alternating, runs after gaps), every failure position and kind; three type pairs.
+fn enumerate_long(pairs: &[Pair], want_fail: bool) -> Vec<Case> {
+    let mut cases = Vec::new();
+    for pi in 0..pairs.len().min(3) {
+        for n in [9usize, 12, 17] {
+            let full = (1u32 << n) - 1;
+            let patterns = [full, 0x0101_0101 & full, 1u32 << (n - 1), 1, 0x5555_5555 & full, 0xFFFF_FF9C & full, 0];
+            let fails: Vec<Option<(usize, FailKind)>> = if want_fail { (0..n).flat_map(|k| FailKind::ALL.into_iter().map(move |kind| Some((k, kind)))).collect() } else { vec![None] };
+            for fail in fails {
+                let plen = fail.map(|f| f.0).unwrap_or(n);
+                let mut seen = std::collections::BTreeSet::new();
+                for pattern in patterns.iter().map(|p| p & ((1u32 << plen) - 1)) {
+                    if !seen.insert(pattern) {
+                        continue;
+                    }
+                    for entry in [Entry::Try, Entry::Plain] {
+                        if entry == Entry::Plain && matches!(fail, Some((_, FailKind::Err))) {
+                            continue;
+                        }
+                        cases.push(Case { pair: pi, n, pattern, fail, mode: PrevMode::Read, extra_cap: 0, entry });
                     }
                 }
             }
@@ -787,13 +817,15 @@ fn space_for(prop: &str, tier: Tier) -> (Vec<Pair>, Vec<Case>, usize) {
         "C08" => {
             let n = if tier == Tier::Quick { 6 } else { 10 };
             let pairs = conv_pairs();
-            let cases = enumerate_conv(&pairs, n, Some(false));
+            let mut cases = enumerate_conv(&pairs, n, Some(false));
+            cases.extend(enumerate_long(&pairs, false));
             (pairs, cases, n)
         }
         "C09" => {
             let n = if tier == Tier::Quick { 6 } else { 10 };
             let pairs = conv_pairs();
-            let cases = enumerate_conv(&pairs, n, Some(true));
+            let mut cases = enumerate_conv(&pairs, n, Some(true));
+            cases.extend(enumerate_long(&pairs, true));
             (pairs, cases, n)
         }
         "C10" => {
@@ -911,8 +943,8 @@ fn main() {
     }
     samples.truncate(6);
     let rule = match prop.as_str() {
-        "C08" => format!("every failure-free case: {} element type pairs of equal layout x every length 0..={} x every converted/abandoned pattern x previous-output use {{ignore, read, modify}} x spare capacity {{0,2}} x both entry points, in debug and release builds; each case is distinct by construction; non-trivial = at least one element (n>0)", pairs.len(), max_n),
-        "C09" => format!("every failing case: {} element type pairs x every length 1..={} x every failure position x 4 failure kinds (Err, panic before output / after output built / after input dropped) x every converted/abandoned pattern before the failure x previous-output use x spare capacity x entry point, in debug and release builds; all distinct, all non-trivial", pairs.len(), max_n),
+        "C08" => format!("every failure-free case: {} element type pairs of equal layout x every length 0..={} x every converted/abandoned pattern x previous-output use {{ignore, read, modify}} x spare capacity {{0,2}} x both entry points, in debug and release builds, plus long vectors (lengths 9, 12, 17; seven patterns; three pairs); each case is distinct by construction; non-trivial = at least one element (n>0)", pairs.len(), max_n),
+        "C09" => format!("every failing case: {} element type pairs x every length 1..={} x every failure position x 4 failure kinds (Err, panic before output / after output built / after input dropped) x every converted/abandoned pattern before the failure x previous-output use x spare capacity x entry point, in debug and release builds, plus long vectors (lengths 9, 12, 17; every failure position and kind; seven patterns; three pairs); all distinct, all non-trivial", pairs.len(), max_n),
         _ => format!("every ordered pair of {} element types of a (size, align) matrix ({} pairs, {} with different layout) x every length 0..={} x capacity {{len, len+2; 0 = never allocated}} x both entry points x two patterns, in debug and release builds; non-trivial = the two types differ in layout", (pairs.len() as f64).sqrt() as usize, pairs.len(), pairs.iter().filter(|p| !p.same_layout).count(), max_n),
     };
     let nontrivial = match prop.as_str() {
